@@ -51,8 +51,46 @@ def correspondence(ctx, ss, n_cases, families=('random', 'bernoulli')):
             m = meta[fam][j]
             ctx.broke('correspondence', f'ss.{fam} operation history: L1 model and implementation disagree', repr(m)[:1500])
             ctx.cov.setdefault('diverging_cases', []).append(m)
+            ctx.guard('independence_on_history', independence_on_history, ctx, ss, m)
     if meta.get('random'):
         ctx.sample(dict(kind='op-history', **{k: meta['random'][0][k] for k in ('seed', 'slots', 'strict', 'auto', 'ops', 'impl')}))
+
+
+def independence_on_history(ctx, ss, m):
+    """Search step: replay a diverging history on the implementation and test the property on it directly --
+    every value returned for an agent must equal the value that agent gets when drawn ALONE from a fresh
+    distribution (same seed) placed at the same jump index."""
+    fam, slots = m['family'], m['slots']
+    def fresh():
+        sim = do.mock_sim(slots)
+        d = ss.random(name='d', strict=m['strict'], auto=m['auto']) if fam == 'random' else ss.bernoulli(p=m['p'], name='d', strict=m['strict'], auto=m['auto'])
+        d.init(trace='harness_dist', seed=m['seed'], sim=sim, module=do.MockModule(), force=True)
+        return d
+    if not m.get('init', True): return
+    d = fresh()
+    for op in m['ops']:
+        try:
+            if op[0] == 'jump_dt': d.jump_dt(ti=op[1], force=op[2])
+            elif op[0] == 'jump': d.jump(to=op[1], delta=op[2], force=op[3])
+            elif op[0] == 'reset': d.reset(-1 if op[1] else 0)
+            elif op[0] == 'rvs' and len(op[1]):
+                ind = d.ind
+                clean = (d.state_int == fresh_state(fresh, ind))
+                r = d.rvs(ss.uids(op[1]), reset=op[2])
+                if clean:
+                    for i, u in enumerate(op[1]):
+                        e = fresh(); e.jump(to=ind, force=True)
+                        alone = e.rvs(ss.uids([u]))[0]
+                        if alone != r[i]:
+                            ctx.violation(f'ss.{fam}: agent {u} (slot {slots[u]}) gets {r[i]} when drawn with {len(op[1])} agents {op[1]} but {alone} when drawn alone '
+                                          f'at the same jump index {ind}', dict(family=fam, seed=m['seed'], slots=slots, uids=op[1], ind=ind, history=m['ops']))
+                            return
+            elif op[0] == 'rvsn': d.rvs(int(op[1]), reset=op[2])
+        except Exception:
+            pass
+
+def fresh_state(fresh, ind):
+    e = fresh(); e.jump(to=ind, force=True); return e.state_int
 
 
 def _merge(groups):
@@ -142,6 +180,22 @@ def oracle_dists(ctx, ss, sc):
                                       f'and {b_} when sampled among {len(U2)} agents after a different earlier history',
                                       dict(family=fam, mode=mode, seed=seed, ti=ti, slots=slots, U=U, U2=U2))
                         break
+    # a long earlier history (more than 1000 non-empty calls) must not matter either
+    for fam in ('random', 'normal', 'bernoulli'):
+        slots = list(range(20)); seed = rng.randrange(10**6); ti_end = ctx.n(1300, 2600)
+        vals = []
+        for busy in (False, True):
+            d = {'random': lambda: ss.random(name='d'), 'normal': lambda: ss.normal(loc=1, scale=2, name='d'), 'bernoulli': lambda: ss.bernoulli(p=0.4, name='d')}[fam]()
+            d.init(trace='oracle_long_' + fam, seed=seed, sim=do.mock_sim(slots), module=do.MockModule(), force=True)
+            if busy:
+                for t0 in range(ti_end):
+                    d.jump_dt(ti=t0, force=True); d.rvs(ss.uids([t0 % 20, (t0 * 7) % 20]))
+            d.jump_dt(ti=ti_end, force=True)
+            vals.append(np.asarray(d.rvs(ss.uids([3, 11, 4]))).tolist())
+        ctx.count(('long-history', fam, seed)); ctx.dist('oracle:long history')
+        if vals[0] != vals[1]:
+            ctx.violation(f'ss.{fam}: draw at step {ti_end} differs between a distribution never used before and one sampled at every earlier step: {vals[0]} vs {vals[1]}',
+                          dict(family=fam, seed=seed, ti=ti_end))
     # pairwise transmission draws depend only on the two slots
     for rep in range(ctx.n(5, 40)):
         n_agents = 30
